@@ -182,6 +182,23 @@ open ElaVerif.CoinbaseTotal in
 /-- NEGATION for the variant that tests `p == nil` only for non-multi-sig codes: an unregistered 2-of-2 script panics. -/
 theorem C03_returnDeposit_nilcheck_panics : returnDepositCheck true 1 [(ms22, false)] true = .panic := by decide
 
+open ElaVerif.CoinbaseTotal in
+/-- the public-key extraction of `RegisterCRTransaction.SpecialContextCheck` (after the fix) never panics, for every `CRInfo.Code`. -/
+theorem C03_registerCRKey_total (code : Bytes) : registerCRKey true code ≠ .panic := registerCRKey_total code
+example : ElaVerif.CoinbaseTotal.registerCRKey true (33 :: List.replicate 33 7 ++ [0xAC]) = .val none := by decide
+
+open ElaVerif.CoinbaseTotal in
+/-- NEGATION (pre-fix code): the one-byte code `AC` makes `code[1:len(code)-1]` = `code[1:0]` panic. -/
+theorem C03_registerCRKey_unguarded_panics : registerCRKey false [0xAC] = .panic := by decide
+
+open ElaVerif.CoinbaseTotal in
+/-- `checkCRCArbitratorsSignatures` (both copies, after the fix) never panics on the m/n read. -/
+theorem C03_crcArbitersMN_total (code : Bytes) : crcArbitersMN true code ≠ .panic := crcArbitersMN_total code
+
+open ElaVerif.CoinbaseTotal in
+/-- NEGATION (pre-fix code): empty and one-byte program codes. -/
+theorem C03_crcArbitersMN_unguarded_panics : crcArbitersMN false [] = .panic ∧ crcArbitersMN false [0x52] = .panic := by decide
+
 /-! ## T-gen: the accesses and guards of the real functions are the ones the models were written against -/
 
 def exp_isStandard : List String := [
@@ -395,6 +412,32 @@ def exp_returnDepositSpecialContextCheck : List String := [
   "guard inputValue-changeValue > availableAmount || outputValue >= availableAmount"
 ]
 
+def exp_registerCRSpecialContextCheck : List String := [
+  "idx t.Programs()[0]",
+  "slice code[2:]",
+  "guard len(code) >= 2 && code[len(code)-1] == vm.CHECKSIG",
+  "idx code[len(code)-1]",
+  "slice code[1 : len(code)-1]",
+  "guard code[len(code)-1] == vm.CHECKMULTISIG",
+  "idx code[len(code)-1]"
+]
+
+def exp_checkCRCArbitratorsSignaturesTx : List String := [
+  "guard len(code) < 2",
+  "idx code[len(code)-2]",
+  "idx code[0]",
+  "div float64(crcArbitratorsCount) * state.MajoritySignRatioNumerator / state.MajoritySignRatioDenominator",
+  "slice pk[1:]"
+]
+
+def exp_checkCRCArbitratorsSignaturesBc : List String := [
+  "guard len(code) < 2",
+  "idx code[len(code)-2]",
+  "idx code[0]",
+  "div float64(crcArbitratorsCount) * state.MajoritySignRatioNumerator / state.MajoritySignRatioDenominator",
+  "slice pk[1:]"
+]
+
 /-- opcode / prefix / size constants used by the models are the repository's. -/
 theorem C03_gen_constants :
     Gen.C03.PUSH1 = PUSH1 ∧ Gen.C03.PUSH16 = PUSH16 ∧ Gen.C03.CHECKSIG = CHECKSIG ∧
@@ -429,7 +472,10 @@ theorem C03_gen_accesses :
     Gen.C03.coinbaseCheckTransactionOutput = exp_coinbaseCheckTransactionOutput ∧
     Gen.C03.checkSchnorrWithdrawFromSidechain = exp_checkSchnorrWithdrawFromSidechain ∧
     Gen.C03.checkBlockSanity = exp_checkBlockSanity ∧
-    Gen.C03.returnDepositSpecialContextCheck = exp_returnDepositSpecialContextCheck := by
-  refine ⟨rfl, rfl, rfl, rfl, rfl, rfl, rfl, rfl, rfl, rfl, rfl, rfl, rfl, rfl, rfl, rfl, rfl, rfl, rfl, rfl, rfl⟩
+    Gen.C03.returnDepositSpecialContextCheck = exp_returnDepositSpecialContextCheck ∧
+    Gen.C03.registerCRSpecialContextCheck = exp_registerCRSpecialContextCheck ∧
+    Gen.C03.checkCRCArbitratorsSignaturesTx = exp_checkCRCArbitratorsSignaturesTx ∧
+    Gen.C03.checkCRCArbitratorsSignaturesBc = exp_checkCRCArbitratorsSignaturesBc := by
+  refine ⟨rfl, rfl, rfl, rfl, rfl, rfl, rfl, rfl, rfl, rfl, rfl, rfl, rfl, rfl, rfl, rfl, rfl, rfl, rfl, rfl, rfl, rfl, rfl, rfl⟩
 
 end ElaVerif.C03
